@@ -65,13 +65,21 @@ def batches(draw):
     # twins: a later entry that is an exact copy of an earlier game, or the same game with ONE fault
     # (container-type faults first: they survive most serialisations)
     for j in range(1, k):
-        what = draw(st.integers(0, 10))
-        if what > 4:
+        what = draw(st.integers(0, 11))
+        if what > 5:
             continue
         i = draw(st.integers(0, j - 1))
         if entries[i]["kind"] != "stopping":
             continue
-        if what == 4:
+        if what == 5:
+            # a number-type twin: the same game with its rewards written as floats (1 == 1.0, 10**25 == 1e25 ...):
+            # equal element by element under ==, but a different description with differently typed results
+            sib = copy.deepcopy(entries[i]["game"])
+            if all(isinstance(x, float) for x in sib["rewards"]):
+                continue
+            sib["rewards"] = [float(x) for x in sib["rewards"]]
+            entries[j] = dict(kind="stopping", game=sib, twin_of=i)
+        elif what == 4:
             # a sibling: the same rewards, owners and transition lists, OTHER final states (among the absorbing ones)
             sib = copy.deepcopy(entries[i]["game"])
             absorbing = [s_ for s_, l in enumerate(sib["transition_list"]) if l and all(t_ == s_ for _, t_ in l)]
@@ -287,7 +295,8 @@ def check_case(case):
                     v.fail("batch-field-missing", f"{label}: entry {key} lacks {f}", sig=f)
                     break
                 if e[f] != rf[f] or type(e[f]) is not type(rf[f]) and not (isinstance(e[f], (int, float)) and
-                                                                          isinstance(rf[f], (int, float))):
+                                                                          isinstance(rf[f], (int, float))) or \
+                        (isinstance(e[f], list) and repr(e[f]) != repr(rf[f])):
                     kindg = "failing game" if not ref[key.replace("_no_prune", "")]["ok"] else "solvable game"
                     v.fail("batch-entry-differs-from-solo", f"{label} (order {[names[i] for i in order]}): entry "
                                                             f"{key} ({kindg}) field {f} is {str(e[f])[:160]} but solving "
